@@ -2,6 +2,8 @@ import Oas3Model.Model.Fmt
 import Oas3Model.Proofs.Fmt
 import Oas3Model.Props.C03
 import Oas3Model.Gen.PanicSites
+import Oas3Model.Model.Lexical
+import Oas3Model.Proofs.Lexical
 namespace Oas3.Props.C19
 open Oas3.Fmt
 
@@ -37,5 +39,144 @@ def tokenSites : List (List Char × List Char × List Char × Nat) :=
   Oas3.Gen.PanicSites.sites.filter fun s => ["parse-tokens", "syn::parse_str", "syn::parse2", "format_ident!", "Ident::new"].map String.toList |>.contains s.2.2.1
 
 theorem token_sites_nonempty : tokenSites.length > 10 := by decide +kernel
+
+/-! ## the carriers: string literals and doc comments (Model/Lexical.lean)
+
+`Model/Lexical.lean` states which functions are oas3-gen code (compared with the real ones by the K tie `lex.*`) and
+which are stated semantics of proc_macro2 / prettyplease / the Rust lexer (compared by the same tie, not verified). -/
+open Oas3.Lex
+
+/-- `escape_string_literal` (five `str::replace` calls in a row) is a one-pass, character-by-character escaping: the
+later replacements never touch what the earlier ones produced -/
+theorem escape_string_literal_one_pass (s : List Char) : escapeStringLiteral s = s.flatMap escOne :=
+  escape_one_pass s
+
+/-- EVERY text, put between quotes by the generator's own escaper, is exactly one string literal whose value is the
+text, byte for byte, and the literal ends at its own closing quote whatever follows (`rest`): no quote, backslash,
+line break or control character in the text can end it early or splice code in -/
+theorem escaped_text_is_one_literal (s rest : List Char) :
+    lexStr ('"' :: (escapeStringLiteral s ++ '"' :: rest)) = some (s, rest) := by
+  rw [escape_one_pass]
+  simpa [lexStr] using lex_flatMap_escOne s [] rest
+
+/-- the same for `proc_macro2::Literal::string` (every `quote! { #text }` of the generator: defaults, enum values, regex
+patterns, header names, server URL, `#[doc = …]` values), for EVERY text and every classification `pr` of the
+characters `char::escape_debug` prints as themselves -/
+theorem literal_roundtrip (pr : Char → Bool) (s rest : List Char) :
+    lexStr (strLit pr s ++ rest) = some (s, rest) := by
+  unfold strLit
+  simpa [lexStr] using lex_litBody pr s [] rest
+
+/-- `\u{…}` of any character's code point is read back as that character (≤ 6 digits, valid scalar value) -/
+theorem unicode_escape_roundtrip (c : Char) (acc t : List Char) :
+    lexS .norm acc ('\\' :: 'u' :: '{' :: (hex c.toNat ++ '}' :: t)) = lexS .norm (c :: acc) t :=
+  lex_unicode_escape c acc t
+
+/-- no line of `Documentation::from_optional` contains a line feed -/
+theorem doc_lines_no_newline (d : List Char) : ∀ l ∈ docLinesOf d, '\n' ∉ l := lines_no_nl _
+
+/-- the doc attribute values `Documentation::to_tokens` emits (since the `fix:` commit for F19-4) contain neither a line
+feed nor a carriage return and start with a blank, whatever the description contains -/
+theorem doc_attrs_clean (d : List Char) :
+    ∀ a ∈ docAttrs (docLinesOf d), '\n' ∉ a ∧ '\r' ∉ a ∧ a.head? = some ' ' := by
+  intro a ha
+  simp only [docAttrs, List.mem_map, List.mem_flatMap] at ha
+  obtain ⟨p, ⟨l, hl, hp⟩, rfl⟩ := ha
+  have h1 : '\n' ∉ p := splitCr_sub '\n' l (doc_lines_no_newline d l hl) p hp
+  have h2 : '\r' ∉ p := splitCr_no_cr l p hp
+  refine ⟨?_, ?_, rfl⟩
+  · intro hm
+    rcases List.mem_cons.mp hm with h | h
+    · exact absurd h (by decide)
+    · exact h1 h
+  · intro hm
+    rcases List.mem_cons.mp hm with h | h
+    · exact absurd h (by decide)
+    · exact h2 h
+
+/-- hence prettyplease prints each of them as ONE `///` line comment, and the Rust lexer reads that comment back as
+exactly the printed text and resumes right after the line end: a description cannot leave its comment -/
+theorem doc_comment_roundtrip (d : List Char) :
+    ∀ a ∈ docAttrs (docLinesOf d), ppDocLine a = some (trimTrailingSpaces a) ∧
+      ∀ rest, lexDocLine (trimTrailingSpaces a ++ '\n' :: rest) = some (trimTrailingSpaces a, rest) := by
+  intro a ha
+  obtain ⟨hn, hc, hh⟩ := doc_attrs_clean d a ha
+  constructor
+  · unfold ppDocLine
+    have : a.contains '\n' = false := by simpa using hn
+    simp only [this]
+    cases a with
+    | nil => simp at hh
+    | cons x y => simp at hh; subst hh; simp
+  · intro rest
+    exact lexDocLine_clean _ rest (trimTrailingSpaces_sub _ _ hn) (trimTrailingSpaces_sub _ _ hc)
+
+/-- recoverability of doc text, for EVERY description: the non-empty doc lines are exactly the non-empty pieces of the
+description (after the documented `\n` → line feed replacement) between its line breaks, in order — nothing is lost,
+merged, duplicated or reordered -/
+theorem doc_segments (d : List Char) :
+    (((docAttrs (docLinesOf d)).map List.tail).filter Oas3.Lex.ne) = segments (unescapeNl d) := by
+  have : (docAttrs (docLinesOf d)).map List.tail = (docLinesOf d).flatMap splitCr := by
+    simp [docAttrs, List.map_map, Function.comp_def]
+  rw [this]
+  simpa [docLinesOf, lines, segments] using filter_lines_split [] (unescapeNl d) (by simp)
+
+/-- … and for a description without carriage returns the doc lines, each followed by a line feed, ARE the text (plus
+the line feed of an unfinished last line), empty lines included -/
+theorem doc_lines_exact (d : List Char) (h : '\r' ∉ unescapeNl d) :
+    unlines ((docAttrs (docLinesOf d)).map List.tail) = unescapeNl d ++ (if openEnd false (unescapeNl d) then ['\n'] else []) := by
+  have e : (docAttrs (docLinesOf d)).map List.tail = docLinesOf d := by
+    simp only [docAttrs, List.map_map, Function.comp_def, List.tail_cons, List.map_id']
+    exact flatMap_splitCr_clean _ (lines_sub '\r' _ h)
+  rw [e]
+  simpa [docLinesOf, lines] using unlines_linesAux [] (unescapeNl d) (by simp) h
+
+/-- splitting a line at its carriage returns loses nothing: joined with carriage returns the parts are the line -/
+theorem split_cr_lossless (l : List Char) : joinCr (splitCr l) = l := joinCr_splitCr l
+
+/-- why the split is there (finding F19-4, fixed): a `///` comment with a carriage return inside is rejected by rustc -/
+theorem bare_cr_in_doc_comment_rejected (a b rest : List Char) (hn : '\n' ∉ a) (hc : '\r' ∉ a) (hb : b ≠ []) (hbn : '\n' ∉ b) :
+    lexDocLine (a ++ '\r' :: (b ++ '\n' :: rest)) = none := lexDocLine_bare_cr a b rest hn hc hb hbn
+
+theorem cex_bare_cr : lexDocLine " a\rb end\nstruct X;".toList = none ∧
+    (docAttrs (docLinesOf "a\rb end".toList)) = [" a".toList, " b end".toList] := by decide +kernel
+
+/-- operation docs (`Documentation::documentation()`): no summary or description line carries a line feed, for every
+notion `ws` of white space -/
+theorem op_doc_lines_no_newline (ws : Char → Bool) (s d : Option (List Char)) :
+    ∀ l ∈ opDocLines ws s d none, '\n' ∉ l := by
+  intro l hl
+  have trim_sub : ∀ x : List Char, '\n' ∉ x → '\n' ∉ trimWs ws x := by
+    intro x hx hm
+    unfold trimWs at hm
+    have h1 := List.mem_reverse.mp hm
+    have h2 := (List.dropWhile_sublist ws).subset h1
+    have h3 := List.mem_reverse.mp h2
+    exact hx ((List.dropWhile_sublist ws).subset h3)
+  simp only [opDocLines, List.append_nil, List.mem_append] at hl
+  rcases hl with (hl | hl) | hl
+  · cases s with
+    | none => simp at hl
+    | some s' =>
+      simp only [List.mem_map, List.mem_filter] at hl
+      obtain ⟨x, ⟨hx, _⟩, rfl⟩ := hl
+      exact trim_sub x (lines_no_nl s' x hx)
+  · cases d with
+    | none => simp at hl
+    | some d' =>
+      simp only [List.mem_append, List.mem_map] at hl
+      rcases hl with hl | ⟨x, hx, rfl⟩
+      · split at hl <;> simp at hl; subst hl; simp
+      · exact trim_sub x (lines_no_nl d' x hx)
+  · split at hl <;> simp at hl; subst hl; simp
+
+/-- non-vacuity: a description with quotes, a comment terminator, `\n` escapes, CRLF and a lone CR -/
+example : docAttrs (docLinesOf "q\"uote */ x\\ny\r\nz\rw".toList) = [" q\"uote */ x".toList, " y".toList, " z".toList, " w".toList] := by
+  decide +kernel
+
+example : lexStr (strLit (fun c => c.toNat ≥ 32 && c.toNat < 127) "a\"b\\c\nd\x00".toList ++ "7; evil()".toList) = some ("a\"b\\c\nd\x00".toList, "7; evil()".toList) := by
+  decide +kernel
+
+example : strLit (fun c => c.toNat ≥ 32 && c.toNat < 127) "\x007é".toList = "\"\\x007\\u{e9}\"".toList := by decide +kernel
 
 end Oas3.Props.C19
